@@ -621,7 +621,9 @@ static Plan gen_fscrash(Rng& r, int tier, std::string const&)
     case 2: p.eng = E_MT19937; break;
     default: p.eng = E_MT19937; p.bins = 128; p.dims = 3; p.nt = NT_L; break;
     }
-    p.variant = r.below(3);   // 0 enumeration, 1 enumeration with short writes / EINTR, 2 executed crash sequences
+    // 0 enumeration, 1 enumeration with short writes / EINTR, 2 executed crash sequences,
+    // 3 enumeration while some opens for writing fail (name too long for the temporary, no space ...)
+    p.variant = r.below(4);
     p.aux.assign(2, r.next());
     p.aux[1] = static_cast<u64>(tier);
     if (p.variant == 2)
@@ -635,6 +637,9 @@ static Plan gen_fscrash(Rng& r, int tier, std::string const&)
                 f.kind = FLT_KILL_FS;
                 f.a = r.below(12);          // fs event inside the incarnation
                 f.b = r.below(5000);        // byte prefix
+                // often: all but the last one to nine bytes of the write (what is cut off is then a
+                // part of the last number only)
+                if (r.chance(0.5)) f.b = (1ULL << 62) + 1 + r.below(9);
             }
             else
             {
@@ -764,6 +769,23 @@ static void exec_fscrash(Plan const& p, Report& rep)
         c.fs_trace = true;
         c.log_text = false;
         Rng fr(p.aux[0]);
+        if (p.variant == 3)
+        {
+            // some opens for writing fail: the checkpoint of that iteration is not written, the file
+            // must still be a complete (older) checkpoint at every instant
+            for (u64 n = 0; n != 16; ++n)
+            {
+                if (fr.chance(0.4))
+                {
+                    Fault f;
+                    f.kind = FLT_IO_ERROR;
+                    f.a = (1ULL << 62) + n;
+                    f.b = fr.chance(0.5) ? 36 : 28;   // ENAMETOOLONG / ENOSPC
+                    c.fs_faults.push_back(f);
+                }
+            }
+        }
+
         if (p.variant == 1)
         {
             // legal kernel behaviour: short writes and EINTR on a seeded subset of the events
@@ -786,6 +808,7 @@ static void exec_fscrash(Plan const& p, Report& rep)
         std::vector<FsEvent> const trace = fs().trace;
         rep.faults["short-write"] += fs().n_short;
         rep.faults["eintr"] += fs().n_eintr;
+        rep.faults["open-fails"] += fs().n_ioerr;
 
         if (s.w->text() != final_text)
         {
@@ -807,7 +830,7 @@ static void exec_fscrash(Plan const& p, Report& rep)
             cc.iter_of_event.push_back(std::min<std::size_t>(iter, texts.size() - 1));
         }
         // a writer that opens more than one file per iteration: attribute by the content instead
-        if (iter != p.calls.size())
+        if (iter != p.calls.size() || p.variant == 3)
         {
             cc.iter_of_event.clear();
         }
@@ -943,7 +966,14 @@ static void exec_fscrash(Plan const& p, Report& rep)
         RunOut const o = w->run(p, rest, c);
         absorb(o, rep);
         rep.fs_events += fs().nevent;
-        if (o.threw) return;
+        if (o.threw)
+        {
+            // no run of the unchanged library throws here: an incarnation that cannot even start from
+            // what the previous one left behind does not "lead to the same final result"
+            rep.fail("C18", "restarted-run-throws", key, fmt("incarnation %d ended with an exception: %s", incarnations,
+                o.what.c_str()));
+            return;
+        }
         if (!o.killed) break;
         if (fs().n_kill != kills_before) rep.faults["kill-at-fs-event"]++;
         else rep.faults["kill-at-call"] += 0;   // counted by absorb
@@ -1250,7 +1280,17 @@ static Plan gen_mpi(Rng& r, int tier, std::string const& focus)
         p.faults.push_back(f);
     }
     p.aux.assign(2, 0);
-    if (p.calls.size() >= 2 && r.chance(0.25))
+    if (focus == "C03")
+    {
+        // stop and restart with the same world size, compared with the job that never stopped
+        while (p.calls.size() < 3) p.calls.push_back(r.below(2 * p.P + 2));
+        p.target = 0;
+        p.stop = -1;
+        p.rorder = 0;
+        p.aux[0] = 1 + r.below(p.calls.size() - 1);
+        p.aux[1] = p.P;
+    }
+    else if (p.calls.size() >= 2 && r.chance(0.25))
     {
         p.aux[0] = 1 + r.below(p.calls.size() - 1);
         p.aux[1] = r.chance(0.5) ? p.P : 1 + r.below(9);
@@ -1631,12 +1671,38 @@ static void exec_mpi(Plan const& p, Report& rep)
     {
         std::vector<u64> const first(p.calls.begin(), p.calls.begin() + split);
         std::vector<u64> const second(p.calls.begin() + split, p.calls.end());
+
+        // with the same world size and rank-order reduction the sums do not depend on the schedule: the
+        // stopped and restarted job must end with the text of the job that never stopped (C03 under MPI)
+        std::string uninterrupted;
+        if (p.aux[1] == P && p.rorder == 0 && p.variant != 9)
+        {
+            Report scratch;
+            Session ref(p, scratch);
+            ref.check = false;
+            ref.fresh();
+            RunCtl rc = ctl;
+            rc.P = P;
+            RunOut const ro = ref.run(p.calls, rc);
+            if (!ro.threw && !ro.killed && !ro.hang && ro.results == p.calls.size()) uninterrupted = ref.w->text();
+        }
+
         if (!mpi_segment(p, s, first, P, ctl, rep)) return;
         if (s.w->nresults() != split) return;   // early stop
         if (!s.reload("mpi restart")) return;
         rep.faults["mpi-restart-other-world-size"] += (p.aux[1] != P);
         ctl.sseed = mix2(ctl.sseed, 7);
         if (!mpi_segment(p, s, second, std::max<u64>(1, p.aux[1]), ctl, rep)) return;
+        if (!uninterrupted.empty())
+        {
+            rep.probes["mpi-restart-vs-uninterrupted"]++;
+            if (s.w->text() != uninterrupted)
+            {
+                rep.fail("C03", "mpi-resumed-differs", key, fmt(
+                    "MPI job with %llu ranks stopped after iteration %llu and restarted from the text ends with another checkpoint than the job that never stopped",
+                    (unsigned long long) P, (unsigned long long) split));
+            }
+        }
         return;
     }
 
